@@ -120,6 +120,38 @@ def img_case(op, dst_pt, dw, dh, src_pt=None, sw=None, sh=None, src_c=None, dst_
     return case
 
 
+def random_resize_kw(rng, maxdim=40, algs=None, filters=None, Q=4, pts=None):
+    """seeded random resize arguments (thorough tiers): any pixel type, sizes up to maxdim, any valid crop on the 1/Q grid
+    (integer, fractional, sub-pixel, edge-flush), any algorithm / filter / alpha flag / back-end"""
+    pt = rng.choice(pts or ALL_PT)
+    small = rng.random() < 0.3
+    lim = 6 if small else maxdim
+    sw, sh = rng.randint(1, lim), rng.randint(1, lim)
+    dw, dh = rng.randint(1, lim), rng.randint(1, lim)
+    alg, m = rng.choice(algs or [("nearest", 1), ("conv", 1), ("conv", 1), ("interp", 1), ("ss", 1), ("ss", 2), ("ss", 3)])
+    flt = rng.choice(filters or BUILTIN)
+    r = rng.random()
+    if r < 0.3:
+        box = None
+    elif r < 0.5:          # integer box
+        l, t = rng.randint(0, sw - 1), rng.randint(0, sh - 1)
+        box = (Q * l, Q * t, Q * rng.randint(1, sw - l), Q * rng.randint(1, sh - t))
+    elif r < 0.6:          # flush against the right / bottom edge, sub-pixel size
+        bw, bh = rng.randint(1, min(Q * sw, 2 * Q)), rng.randint(1, min(Q * sh, 2 * Q))
+        box = (Q * sw - bw, Q * sh - bh, bw, bh)
+    else:                  # any box on the grid
+        l, t = rng.randint(0, Q * sw - 1), rng.randint(0, Q * sh - 1)
+        box = (l, t, rng.randint(1, Q * sw - l), rng.randint(1, Q * sh - t))
+    if rng.random() < 0.15 and box is not None:      # one axis unchanged: single-pass plans
+        if rng.random() < 0.5:
+            dw = max(1, box[2] // Q)
+            box = (Q * (box[0] // Q), box[1], Q * dw, box[3]) if Q * (box[0] // Q) + Q * dw <= Q * sw else box
+        else:
+            dh = max(1, box[3] // Q)
+            box = (box[0], Q * (box[1] // Q), box[2], Q * dh) if Q * (box[1] // Q) + Q * dh <= Q * sh else box
+    return dict(pt=pt, sw=sw, sh=sh, dw=dw, dh=dh, alg=alg, flt=flt, m=m, alpha=rng.random() < 0.5, box=box, Q=Q, cpu=rng.choice(CPUS))
+
+
 def ctl_case(rz, what, to=None):
     c = {"op": "rz_ctl", "rz": rz, "what": what, "_spec": {"ctl": 1, "rz": rz, "what": what}}
     if to is not None:
